@@ -21,7 +21,9 @@ STR_ENCS = {"A_ASCIISTRING": [None, "ISO-8859-1", "ISO-8859-2", "WINDOWS-1252"],
             "A_UNICODE2STRING": [None, "UCS-2"]}
 
 WRONG_POOL: List[Any] = [None, True, 0, -1, 2**70, 1.5, "", "7", "x" * 300, b"", b"\x00" * 300,
-                         bytearray(b"\x01"), [], [1], {}, {"a": 1}, (1, 2)]
+                         bytearray(b"\x01"), [], [1], {}, {"a": 1}, (1, 2),
+                         float("nan"), float("inf"), float("-inf"), -0.0, 1e308, 5e-324]
+NON_FINITE: List[Any] = [float("nan"), float("inf"), float("-inf")]
 
 
 def linear(n0: Any, n1: Any, d0: Any = None, lo: Any = None, hi: Any = None) -> J:
@@ -259,7 +261,7 @@ def values_for_dop(d: J, tier: str, r: random.Random, hostile: bool) -> List[Any
         else:
             vals = int_values(n, base == "A_INT32", exh, r)
         if hostile:
-            vals += [1.0, 2.5, "1", None, True]
+            vals += [1.0, 2.5, "1", None, True] + NON_FINITE
     elif d["ptype"] in ("A_FLOAT32", "A_FLOAT64"):
         if compu == "LINEAR" and base in ("A_INT32", "A_UINT32"):
             sc = d["compu"]["i2p"]["scales"][0]
@@ -272,7 +274,7 @@ def values_for_dop(d: J, tier: str, r: random.Random, hostile: bool) -> List[Any
         else:
             vals = list(FLOATS) + [r.uniform(-1e6, 1e6) for _ in range(4)]
         if hostile:
-            vals += ["1.0", None, b"\x00"]
+            vals += ["1.0", None, b"\x00"] + NON_FINITE
     elif base == "A_BYTEFIELD":
         hint = dct["bits"] // 8 if dct["k"] == "STD" else dct.get("max") or 4
         vals = bytes_values(hint, r)
